@@ -3,7 +3,7 @@
    "compare is a total order" ([ord_ok], Lib/StdSpec.v) is an explicit premise. *)
 From Coq Require Import List ZArith Sorted Permutation.
 From GVgen Require Import MapGen ListGen.
-From GV Require Import Lib.StdSpec Lib.MapProofs Lib.ListProofs Lib.StdModel Lib.StdModelProofs.
+From GV Require Import Lib.StdSpec Lib.MapProofs Lib.MapMoreProofs Lib.ListProofs Lib.StdModel Lib.StdModelProofs.
 From GV Require Import Lib.Derive Lib.DeriveProofs Lib.Strings Lib.StringsProofs Lib.Json Lib.JsonProofs.
 Import ListNotations.
 
@@ -49,6 +49,55 @@ Theorem C19_map_run_sorted : forall (K : Type) (cmp : K -> K -> comparison) (V :
   StronglySorted (key_lt cmp) (MapGen.to_list (insert_all cmp ops Tip)).
 Proof. exact run_sorted. Qed.
 Print Assumptions C19_map_run_sorted.
+
+(* ---- the rest of std.map's interface: map, map_with_key, keys, values, append ---- *)
+
+Theorem C19_map_find_fmap : forall (K : Type) (cmp : K -> K -> comparison) (A B : Type) (f : A -> B) k (m : Map K A),
+  MapGen.find cmp k (MapGen.map f m) = option_map f (MapGen.find cmp k m).
+Proof. exact find_fmap. Qed.
+Print Assumptions C19_map_find_fmap.
+
+Theorem C19_map_fmap_bst : forall (K : Type) (cmp : K -> K -> comparison) (A B : Type) (f : A -> B) (m : Map K A),
+  bst cmp m -> bst cmp (MapGen.map f m).
+Proof. exact fmap_bst. Qed.
+Print Assumptions C19_map_fmap_bst.
+
+Theorem C19_map_to_list_fmap : forall (K A B : Type) (f : A -> B) (m : Map K A),
+  MapGen.to_list (MapGen.map f m) = List.map (fun kv => (fst kv, f (snd kv))) (MapGen.to_list m).
+Proof. exact to_list_fmap. Qed.
+Print Assumptions C19_map_to_list_fmap.
+
+Theorem C19_map_to_list_map_with_key : forall (K A B : Type) (f : K -> A -> B) (m : Map K A),
+  MapGen.to_list (MapGen.map_with_key f m) =
+  List.map (fun kv => (fst kv, f (fst kv) (snd kv))) (MapGen.to_list m).
+Proof. exact to_list_map_with_key. Qed.
+Print Assumptions C19_map_to_list_map_with_key.
+
+Theorem C19_map_with_key_bst : forall (K : Type) (cmp : K -> K -> comparison) (A B : Type) (f : K -> A -> B) (m : Map K A),
+  bst cmp m -> bst cmp (MapGen.map_with_key f m).
+Proof. exact map_with_key_bst. Qed.
+Print Assumptions C19_map_with_key_bst.
+
+Theorem C19_map_keys_values : forall (K V : Type) (m : Map K V),
+  MapGen.keys m = List.map fst (MapGen.to_list m) /\
+  MapGen.values m = List.map snd (MapGen.to_list m).
+Proof. exact keys_values_to_list. Qed.
+Print Assumptions C19_map_keys_values.
+
+(* append l r behaves like the right-biased union: a key bound in r takes r's value, any other
+   key keeps what l says, and nothing else appears *)
+Theorem C19_map_find_append : forall (K : Type) (cmp : K -> K -> comparison),
+  ord_ok cmp -> forall (V : Type) x (r l : Map K V), bst cmp r ->
+  MapGen.find cmp x (MapGen.append cmp l r) =
+  match MapGen.find cmp x r with Some v => Some v | None => MapGen.find cmp x l end.
+Proof. exact find_append. Qed.
+Print Assumptions C19_map_find_append.
+
+Theorem C19_map_append_bst : forall (K : Type) (cmp : K -> K -> comparison),
+  ord_ok cmp -> forall (V : Type) (r l : Map K V),
+  bst cmp l -> bst cmp (MapGen.append cmp l r).
+Proof. exact append_bst. Qed.
+Print Assumptions C19_map_append_bst.
 
 (* ---- std.list ---- *)
 
